@@ -12,7 +12,7 @@ from lib import exprs as E, exprgen as G, exprcheck as X
 THEOREMS = [
     "Claripy.Props.C01.C01_rules_sound", "Claripy.Props.C01.C01_rewrite_step_sound", "Claripy.Props.C01.C01_congruence",
     "Claripy.Props.C01.C01_eval_canonical", "Claripy.Props.C01.C01_fold_sound", "Claripy.Props.C01.C01_fold_sound_all", "Claripy.BV.reverse_spec", "Claripy.BV.reverseLoop_eq", "Claripy.Props.C01.C01_ac_rewrite_sound",
-    "Claripy.Props.C01.C01_ac_rewrite_sound_width", "Claripy.Props.C01.C01_bool_ac_rewrite_sound", "Claripy.Props.C01.C01_bits_rewrite_sound", "Claripy.Props.C01.C01_cmp_rewrite_sound", "Claripy.Props.C01.C01_and_eq_ne_sound",
+    "Claripy.Props.C01.C01_ac_rewrite_sound_width", "Claripy.Props.C01.C01_bool_ac_rewrite_sound", "Claripy.Props.C01.C01_bits_rewrite_sound", "Claripy.Props.C01.C01_cmp_rewrite_sound", "Claripy.Props.C01.C01_and_eq_ne_sound", "Claripy.Props.C01.C01_minmax_rewrite_sound", "Claripy.Props.C01.C01_max_idiom", "Claripy.Props.C01.C01_min_idiom",
     "Claripy.BV.add_spec", "Claripy.BV.sub_spec", "Claripy.BV.mul_spec", "Claripy.BV.neg_spec", "Claripy.BV.and_spec",
     "Claripy.BV.or_spec", "Claripy.BV.xor_spec", "Claripy.BV.not_spec", "Claripy.BV.shl_spec", "Claripy.BV.lshr_spec",
     "Claripy.BV.ashr_spec", "Claripy.BV.signed_eq_toInt", "Claripy.BV.udiv_spec", "Claripy.BV.umod_spec", "Claripy.BV.sdiv_spec", "Claripy.BV.smod_spec", "Claripy.BV.sdivCore_eq_tdiv", "Claripy.BV.rotl_spec", "Claripy.BV.rotr_spec",
